@@ -12,6 +12,7 @@ import (
 	"os"
 	"runtime"
 	"sort"
+	"strings"
 	"sync"
 	"sync/atomic"
 	"time"
@@ -20,6 +21,7 @@ import (
 	"github.com/orda-io/orda/server/constants"
 
 	"github.com/orda-io/orda/client/pkg/model"
+	"verifharness/memmongo"
 )
 
 type parRes struct {
@@ -171,13 +173,129 @@ func (w *sworld) stepLockStress(caseID, rounds, n int) (J, J, bool) {
 	return J{"k": "lockstress", "rounds": rounds, "goroutines": n}, obs, hung
 }
 
-func runParProfile(seed uint64, cases int, out func(cmd, obs J), statsPath string) {
+// lockContend: request A of client a is stopped at its commit point (it holds the lock of the key); request B of client b
+// waits for the lock until its own short deadline and is refused; request C of client c arrives while A still holds the
+// lock; then A is released.  One-at-a-time semantics: A, (B refused: nothing read or written), C.
+func (s *sgen) lockContend(a, b, c int) bool {
+	w := s.w
+	type one struct {
+		c, r int
+		req  []*model.PushPullPack
+		resp *model.PushPullMessage
+		err  error
+		done chan struct{}
+	}
+	mk := func(c int) *one {
+		r := s.repsOf(c)[0]
+		return &one{c: c, r: r, req: []*model.PushPullPack{w.reps[r].wired.CreatePushPullPack()}, done: make(chan struct{})}
+	}
+	A, B, C := mk(a), mk(b), mk(c)
+	call := func(o *one, timeout time.Duration) {
+		defer close(o.done)
+		defer func() { _ = recover() }()
+		msg := model.NewPushPullMessage(0, w.clients[o.c].cm, o.req...)
+		ctx, cancel := context.WithCancel(context.Background())
+		if timeout > 0 {
+			ctx, cancel = context.WithTimeout(context.Background(), timeout)
+		}
+		o.resp, o.err = w.kit.Service.ProcessPushPull(ctx, cloneMsg(msg))
+		cancel()
+	}
+	if len(A.req[0].Operations) == 0 { // A must push something, otherwise it has no commit point
+		return false
+	}
+	// a panic in a goroutine of the server takes the process down: the runner attributes it to this step
+	s.out(J{"k": "intent", "of": "sync", "c": B.c, "rs": []int{B.r}, "parallel": true, "lockcontend": true}, J{})
+	w.kit.Mongo.SetGate(func(cr memmongo.CmdRecord) bool { return cr.Name == "update" && cr.Coll == "-_-Datatypes" })
+	go call(A, 0)
+	for t := 0; t < 20000 && len(w.kit.Mongo.Held()) == 0; t++ {
+		select {
+		case <-A.done:
+			t = 20000
+		default:
+			time.Sleep(200 * time.Microsecond)
+		}
+	}
+	held := len(w.kit.Mongo.Held()) > 0
+	w.kit.Mongo.SetGate(nil)
+	if held {
+		call(B, 80*time.Millisecond) // waits for the lock until its deadline
+		go call(C, 0)
+		time.Sleep(40 * time.Millisecond)
+	} else {
+		close(B.done)
+		close(C.done)
+	}
+	w.kit.Mongo.ReleaseAll()
+	hung := false
+	for _, o := range []*one{A, B, C} {
+		select {
+		case <-o.done:
+		case <-time.After(20 * time.Second):
+			hung = true
+		}
+	}
+	time.Sleep(2 * time.Millisecond)
+	w.waitBackground()
+	notifs := w.notifs()
+	emitOne := func(o *one, lockfail bool) bool {
+		cmd := J{"k": "sync", "c": o.c, "rs": []int{o.r}, "parallel": true}
+		if lockfail {
+			cmd["lockfail"] = true
+		}
+		obs := J{}
+		if hung {
+			obs["hang"] = true
+			s.emit(cmd, obs, true)
+			return true
+		}
+		reqJ := make([]interface{}, 0)
+		for _, p := range o.req {
+			reqJ = append(reqJ, packJ(p))
+		}
+		obs["req"], obs["rpc"], obs["resp"] = reqJ, rpcCode(o.err), respJ(o.resp)
+		mine := make([]interface{}, 0)
+		for _, n := range notifs {
+			if nj, ok := n.(J); ok && nj["cuid"] == w.clients[o.c].cm.CUID {
+				mine = append(mine, n)
+			}
+		}
+		obs["notifs"] = mine
+		if o.err == nil && o.resp != nil {
+			obs["posts"] = w.applyPacks([]int{o.r}, o.resp.PushPullPacks)
+		}
+		return s.emit(cmd, obs, false)
+	}
+	if emitOne(A, false) {
+		return true
+	}
+	if held {
+		refused := B.resp != nil && len(B.resp.PushPullPacks) == 1 && len(B.resp.PushPullPacks[0].Operations) > 0 &&
+			strings.Contains(string(B.resp.PushPullPacks[0].Operations[len(B.resp.PushPullPacks[0].Operations)-1].Body), "fail to lock")
+		s.stats["lockcontend"]++
+		if refused {
+			s.stats["lockcontend:refused"]++
+		}
+		if emitOne(B, refused) {
+			return true
+		}
+		if emitOne(C, false) {
+			return true
+		}
+	}
+	return false
+}
+
+func runParProfile(seed uint64, cases, from int, out func(cmd, obs J), statsPath string) {
 	r := &rng{s: seed*0x9e3779b97f4a7c15 + 1212}
 	stats := map[string]int{}
 	s := &sgen{r: r, p: sprofile{name: "par", dts: []string{"counter", "list", "map", "document"}, maxKeys: 2, cols: 1}, out: out, stats: stats}
 	s.g = &gen{r: r, p: profile{malformed: 0.0, bigBatch: 0.02}, out: out, stats: stats, twin: map[int]int{}}
 	for c := 0; c < cases; c++ {
 		r.s = (seed*0x9e3779b97f4a7c15 + 1212) ^ (uint64(c+1) * 0xd1342543de82ef95)
+		if c < from { // cases are seeded independently: a run restarted after a crash skips the finished ones
+			continue
+		}
 		s.w = newSWorld()
 		s.w.svc = true
 		s.w.spostFn = s.w.spost
@@ -241,6 +359,32 @@ func runParProfile(seed uint64, cases int, out func(cmd, obs J), statsPath strin
 			}
 			if ok {
 				ok = !s.emit(s.w.stepStore())
+			}
+		}
+		// three clients of one key: A stopped at its commit point, B refused at the lock, C behind A
+		if ok && ncli >= 3*nkeys {
+			var same []int
+			for i := 0; i < ncli; i++ {
+				if i%nkeys == 0 {
+					same = append(same, i)
+				}
+			}
+			if len(same) >= 3 {
+				for _, cc := range same[:3] {
+					m, a := s.g.genCall(cc, false)
+					if s.w.reps[cc].typ == "document" {
+						a["_h"] = "root"
+					}
+					if s.emit(s.w.stepCall(cc, m, a)) {
+						ok = false
+					}
+				}
+				if ok {
+					ok = !s.lockContend(same[0], same[1], same[2])
+				}
+				if ok {
+					ok = !s.emit(s.w.stepStore())
+				}
 			}
 		}
 		for round := 0; round < 2 && ok; round++ {
